@@ -69,6 +69,7 @@ for kind in (1, 2, 3, 4):
     n = CLSN[kind]
     roots = {'AOCS': r'unodb::detail::impl_helpers::add_or_choose_subtree<unsigned long, [^(]*unodb::detail::inode_%d<unsigned long' % n}
     if kind == 3: roots['N48_ADD'] = node_rx(48) + r'add_to_nonfull\('
+    if kind == 3: roots['INODE_DELETER'] = r'^unodb::detail::basic_db_inode_deleter<unodb::detail::inode_48<unsigned long, %s >, unodb::db<unsigned long, %s > >::operator\(\)' % (SPAN, SPAN)
     stubs = dict(ADT); stubs['TAG_PTR?'] = stubs.pop('TAG_PTR')
     if kind == 3: stubs['P_GROW'] = node_rx(256) + r'init\(unodb::db<.*>&, unodb::detail::inode_48<[^()]*>&, std::unique_ptr<'
     job('tree.db64.aocs.k%d' % kind, ['C01', 'C08', 'C10', 'C16'], 'u_db', 'proofs/tree/aocs_db.c', defines=['KIND=%d' % kind, 'POL=DB64'], roots=roots, stubs=stubs,
@@ -77,16 +78,18 @@ for kind in (1, 2, 3, 4):
                        'lg_freed.0': 6, 'lg_on_free.0': 6, 'stats_load.0': 7, 'stats_load.1': 6, 'stats_check.0': 7, 'stats_check.1': 6},
         floor=20, timeout=1800, mem_gb=(12 if kind == 1 else 20), objbits=14, memsafe=False,
         under_contract=['impl_helpers::add_or_choose_subtree<inode_%d> (db: descend / in-place add / growth, allocation failure)' % n, 'basic_inode_%d::add_to_nonfull' % n] + (['growing constructor of the next larger class'] if kind <= 2 else []),
-        trusted=['node_ptr as an abstract data type', 'one-level unfolding of the abstract map (composition with get/insert loop invariants is the induction of DESIGN.md 4.4)'] + (['NOT covered: the N48 -> N256 growth branch (copy routine cut off)'] if kind == 3 else []))
+        trusted=['node_ptr as an abstract data type', 'one-level unfolding of the abstract map (composition with get/insert loop invariants is the induction of DESIGN.md 4.4)'] + (['the copy routine basic_inode_256::init(db, inode_48&, leaf, depth) is replaced by its contract, proved on the real routine in node.db64.ctor.i48_to_i256'] if kind == 3 else []))
 # ---- remove at an inner node of class N48 / N256: impl_helpers::remove_or_choose_subtree<inode_N> with a structural contract (light form of the parked remove.k3/k4 step)
 for kind in (3, 4):
     n = CLSN[kind]
     stubs = dict(ADT); stubs['TAG_PTR?'] = stubs.pop('TAG_PTR'); stubs['P_SHRINK'] = node_rx(CLSN[kind - 1]) + r'init\(unodb::db<.*>&, unodb::detail::inode_%d<[^()]*>&, unsigned char\)' % n
     job('tree.db64.rocs.k%d' % kind, ['C01', 'C08', 'C10', 'C16'], 'u_db', 'proofs/tree/rocs_db.c', defines=['KIND=%d' % kind, 'POL=DB64'],
-        roots={'ROCS': r'unodb::detail::impl_helpers::remove_or_choose_subtree<unsigned long, [^(]*unodb::detail::inode_%d<unsigned long' % n}, stubs=stubs,
+        roots={'ROCS': r'unodb::detail::impl_helpers::remove_or_choose_subtree<unsigned long, [^(]*unodb::detail::inode_%d<unsigned long' % n,
+               'LEAF_DELETER': r'^unodb::detail::basic_db_leaf_deleter<unodb::db<unsigned long, .*::operator\(\)',
+               'INODE_DELETER': r'^unodb::detail::basic_db_inode_deleter<unodb::detail::inode_%d<unsigned long, %s >, unodb::db<unsigned long, %s > >::operator\(\)' % (n, SPAN, SPAN)}, stubs=stubs,
         cfgs=CFG_TREE, thorough_cfgs=ALL_CFGS, unwind=258,
         unwindset_raw={'nv_load.0': 260, 'nv_load.1': 260, 'nv_child.0': 18, 'nv_wf_small.0': 18, 'nv_wf_48_full.0': 50, 'nv_wf_48_full.1': 260, 'nv_wf_256_full.0': 260, 'node_wf.0': 50, 'adt_tag.0': 10,
                        'lg_freed.0': 6, 'lg_on_free.0': 6, 'stats_load.0': 7, 'stats_load.1': 6, 'stats_check.0': 7, 'stats_check.1': 6, 'memcmp.0': 10},
         floor=20, timeout=1800, mem_gb=20, objbits=14, memsafe=False,
         under_contract=['impl_helpers::remove_or_choose_subtree<inode_%d> (db: not found / descend / in-place removal / shrink, allocation failure)' % n, 'basic_inode_%d::remove' % n],
-        trusted=['node_ptr as an abstract data type', 'one-level unfolding of the abstract map', 'NOT covered: the shrink branch to the next smaller class (copy routine cut off)'])
+        trusted=['node_ptr as an abstract data type', 'one-level unfolding of the abstract map', 'the copy routine basic_inode_%d::init(db, inode_%d&, uint8_t) is replaced by its contract, proved on the real routine in node.db64.ctor.i%d_to_i%d' % (CLSN[kind - 1], n, n, CLSN[kind - 1])])
